@@ -118,7 +118,8 @@ def check_counting(case, shard, cap):
     mu, ts = case["mu"], case["test_stat"]
     lo, hi = 0.0, 10.0
     bounds = [(lo, hi)]
-    if ts == "q":
+    if ts == "q" or (ts == "q0" and case.get("q0_negative_bound")):
+        # a POI allowed to go negative: q0 must then be zero (p0 = 0.5) for a deficit
         minratio = min(b / s for s, b in zip(ss, bs))
         lo = -round(min(0.5 * minratio, 3.0), 2)
         bounds = [(lo, hi)]
@@ -346,7 +347,7 @@ def make_counting(rng, backend):
     else:
         data = [float(gen.poisson_draw(rng, b + rng.uniform(3, 8) * s)) for s, b in zip(ss, bs)]
     mu = rng.choice([0.2, 0.5, 1.0, 1.0, 2.0, 3.5, 6.0, gen._round(rng.uniform(0.05, 9.5), 2)])
-    return {"spec": spec, "data": data, "mu": mu, "test_stat": rng.choice(["qtilde", "qtilde", "q", "q0"]), "backend": backend, "seed": rng.randrange(1 << 30)}
+    return {"spec": spec, "data": data, "mu": mu, "test_stat": rng.choice(["qtilde", "qtilde", "q", "q0"]), "backend": backend, "seed": rng.randrange(1 << 30), "q0_negative_bound": rng.random() < 0.6}
 
 
 def make_generated(rng, backend):
